@@ -120,6 +120,7 @@ type cmdTracer struct {
 	d2hBytes  int64 // timing only: bytes carried by completed MemCopyD2HReq
 	sabotage  bool
 	flipped   int64
+	maxWaves  int64 // largest number of wavefronts in one kernel launch
 	rec       *vlib.ChildRecorder
 }
 
@@ -140,6 +141,29 @@ func (t *cmdTracer) StartTask(task tracing.Task) {
 	case "req_out":
 		if r, ok := task.Detail.(*protocol.MemCopyD2HReq); ok {
 			t.d2hReqs[task.ID] = r
+		}
+		if r, ok := task.Detail.(*protocol.LaunchKernelReq); ok && r.Packet != nil && r.Packet.WorkgroupSizeX > 0 {
+			// launch geometry: wavefronts of this launch = work-groups x
+			// wavefronts per work-group (unified launches: per-GPU share unknown
+			// here, the whole grid is counted)
+			p := r.Packet
+			div := func(a uint32, b uint16) int64 {
+				if b == 0 {
+					return 1
+				}
+				return int64((a-1)/uint32(b) + 1)
+			}
+			wgs := div(p.GridSizeX, p.WorkgroupSizeX) * div(p.GridSizeY, p.WorkgroupSizeY) * div(p.GridSizeZ, p.WorkgroupSizeZ)
+			wis := int64(p.WorkgroupSizeX)
+			if p.WorkgroupSizeY > 0 {
+				wis *= int64(p.WorkgroupSizeY)
+			}
+			if p.WorkgroupSizeZ > 0 {
+				wis *= int64(p.WorkgroupSizeZ)
+			}
+			if n := wgs * ((wis-1)/64 + 1); n > t.maxWaves {
+				t.maxWaves = n
+			}
 		}
 	}
 }
@@ -211,7 +235,7 @@ func (t *cmdTracer) snapshot() map[string]int64 {
 	return map[string]int64{
 		"kernels_launched": t.kernels, "kernels_completed": t.kernelEnd,
 		"d2h_started": t.d2hStart, "d2h_completed_traced": d2hDone, "h2d_started": t.h2dStart,
-		"d2h_bytes_dma": t.d2hBytes, "sabotage_words_flipped": t.flipped,
+		"d2h_bytes_dma": t.d2hBytes, "sabotage_words_flipped": t.flipped, "max_wavefronts_per_launch": t.maxWaves,
 	}
 }
 
